@@ -49,6 +49,7 @@ type Exec struct {
 	assignNodes       map[*types.Var][]ast.Node // non-defining assignments to each local
 	closesChans       []Term // channels the goroutine under proof may close without owning them (closes=)
 	inputChans        []Term // the channels declared as inputs of the goroutine under proof
+	staleOrdinals     bool // the body has another number of loops than the contract was written for
 	unknownSeen       map[string]bool   // names of the contract that resolved to nothing (seen by invariant inference)
 	rename            map[string]string // contract name -> program name (repair of a renamed local)
 	extraInv          map[ast.Node][]Clause // engine-derived invariants of counting loops
@@ -841,6 +842,11 @@ func (x *Exec) genericLoop(st *State, fr *Frame, node ast.Node, body []ast.Stmt,
 		}, func(*State) {})
 	}
 	vars, maps, ghosts := x.modifiedBy(st, run)
+	if x.staleOrdinals && fr.parent == nil && x.dry == 0 {
+		// loops were added or removed since the contract was written: "loop K" no longer says
+		// which loop is meant, every written invariant clause is only a candidate for every loop
+		lc = nil
+	}
 	if x.dry == 0 && x.opts["infer"] != "off" && (lc == nil || x.contractBroken(lc, lenv(st))) {
 		// no usable invariant: try to infer one from the function's other invariants
 		if inf := x.inferInvariant(st, fr, node, lc, lenv, run, func(s *State, round int) {
